@@ -930,7 +930,7 @@ def _work(task):
                 res["evals"] += n
                 res["nontrivial"] += nt
                 fails.extend(f)
-        tname, v = vals[-1]
+        tname, v = vals[0]
         res["samples"].append(dict(dialect=label, form="cte", source="lx-callable", type=tname, value=_jsonable(v),
                                    sql=source_text(label, "cte", "lx-callable", tname, v)[0]))
     elif kind == "source-engine":
@@ -1040,7 +1040,7 @@ def run(run, tier, seed, args):
         values_refused_by_processor=sum(r["refused"] for r in res),
         variants=list(VARIANTS),
         failures_not_kept=sum(r.get("dropped_failures", 0) for r in res),
-        samples=[s for r in res for s in r["samples"]][:12],
+        samples=[s for k in by for s in [s for r in res if r["kind"] == k for s in r["samples"]][:3]],
         exhaustive=True,
         scope="alphabet %r; strings of length 0..%d x %d variants x {String, Unicode} x 2 paths; statement forms %s for strings "
               "0..%d; SQLite Engine executions for strings 0..%d; boundary value lists (module docstring); value sources %s "
